@@ -12139,8 +12139,8 @@ CK_RV SoftHSM::getRSAPrivateKey(RSAPrivateKey* privateKey, Token* token, OSObjec
 		coefficient = key->getByteStringValue(CKA_COEFFICIENT);
 	}
 
-	// A key without modulus or public exponent cannot be used (and crashes the crypto library)
-	if (modulus.size() == 0 || publicExponent.size() == 0)
+	// A key without modulus, public or private exponent cannot be used (and crashes the crypto library)
+	if (modulus.size() == 0 || publicExponent.size() == 0 || privateExponent.size() == 0)
 		return CKR_GENERAL_ERROR;
 
 	privateKey->setN(modulus);
